@@ -211,6 +211,35 @@ def judge_lock(ctx, rng, j):
                               repr(got)[:80])
             else:
                 ctx.mark_nontrivial(dg('kp', lock, name, w))
+    # ---- the graftap pair of builders (a taproot lock over a fixed
+    # committed script): its key spends, under the flags the lock was asked to
+    # permit, unlock it; one excess bit does not
+    if j % 3 == 0:
+        try:
+            glock = bytes(tools.make_graftap_lock(P, f'{allowed:02x}'))
+            gfl = sorted(flags)
+            free = [b for b in range(8) if not (allowed >> b) & 1]
+            if free and (max(flags) | (1 << free[j % len(free)])) != 0xff:
+                gfl.append(max(flags) | (1 << free[j % len(free)]))
+            for f in gfl:
+                ctx.evaluated()
+                gw = bytes(tools.make_graftap_witness_keyspend(
+                    seed, fields, f'{f:02x}'))
+                want = not (f & ~allowed & 0xff)
+                got = run_auth([gw, glock], fields)
+                if (got is True) != want:
+                    ctx.violation(
+                        'builder-keyspend-rejected' if want else
+                        'keypath-forbidden-flag', 'graftap lock (permitting '
+                        f'{allowed:#04x}) and the graftap key-spend witness '
+                        f'made with flag {f:#04x}: verdict differs',
+                        dict(base, kind='graftap', lock=glock, witness=gw,
+                             f=f, want=want), want, repr(got)[:80])
+                else:
+                    ctx.mark_nontrivial(dg('graftap', glock, f))
+        except BaseException as e:
+            ctx.violation('builder-raised:graftap', repr(e)[:120],
+                          dict(base, kind='graftap-raised'))
     # ---- (d)+(c) script spend
     ctx.evaluated()
     wit = bytes(tools.make_taproot_witness_scriptspend(P, script))
@@ -476,6 +505,12 @@ def replay(case, ctx):
                 if (got is True) != want:
                     ctx.violation('keypath-replay', 'replay', case, want,
                                   repr(got))
+        elif k == 'graftap':
+            got = run_auth([case['witness'], lock], fields)
+            if (got is True) != case['want']:
+                ctx.violation('builder-keyspend-rejected' if case['want'] else
+                              'keypath-forbidden-flag', 'replay', case,
+                              case['want'], repr(got)[:60])
         elif k == 'nn-ext':
             import tapescript
             tapescript.add_signature_extension(_ext)
